@@ -44,6 +44,9 @@ struct String {
 
     /// Assigns \a other to this string and returns a reference to this string.
     String &operator=(const String &other) {
+        if (this == &other) {
+            return *this;
+        }
         cbindgen_private::resolvo_string_drop(this);
         cbindgen_private::resolvo_string_clone(this, &other);
         return *this;
